@@ -65,12 +65,19 @@ package documentstore
 
 // user-supplied (de)serialisers: deterministic functions of their input (assumed)
 //@ spec func docOf(data Slice<Int>) Iface
+// Decoding writes INTO the item it is given (a pointer-typed item is filled in place): every decode needs an
+// item of its own, straight from ItemFactory, or documents returned earlier are overwritten. itemFresh is
+// the ghost token for that: ItemFactory hands it out, Unmarshal consumes it.
+//@ ghost field itemFresh(Iface) Bool
 //@ extern field:iface.CreateDocumentDBOptions.Unmarshal as Unmarshal(data, v) (err)
 //@   requires v != nil
+//@   requires itemFresh(cell(v, "Iface"))
 //@   ensures err == nil ==> cell(v, "Iface") == docOf(data)
-//@   modifies "C:Iface"
+//@   ensures !itemFresh(cell(v, "Iface"))
+//@   modifies "C:Iface", "G:itemFresh"
 //@ extern field:iface.CreateDocumentDBOptions.ItemFactory as ItemFactory() (v)
-//@   modifies nothing
+//@   ensures itemFresh(v)
+//@   modifies "G:itemFresh"
 
 // matchK(k, K, ci, pm): index key k matches the (normalised) search key K under the options
 //@ spec func normK(k Str, ci Bool) Str = ci ? pcall("strings.ToLower", k) : k
